@@ -362,7 +362,12 @@ static void op_deprecated(uint32_t j, rec_t *r, xrl_error **e) {
 static void op_builtin_insert(uint32_t j, rec_t *r, xrl_error **e) {
     Crystal_Struct *c = Crystal_GetCrystal("Si", NULL, NULL); if (!c) { r->flags |= F_AUX; return; }
     free(c->name); c->name = strdup(S(0) ? S(0) : "Zz_inserted"); c->a *= 1.01;
-    r->v[0] = Crystal_AddCrystal(c, NULL, e); Crystal_Free(c);
+    r->v[0] = Crystal_AddCrystal(c, NULL, e);
+    /* the collection owns a copy: what the caller does with ITS object afterwards - overwrite every atom, the name, release it - must not reach the stored crystal */
+    for (int i = 0; i < c->n_atom; i++) { c->atom[i].Zatom = 32; c->atom[i].fraction = 0.5; c->atom[i].x = c->atom[i].y = c->atom[i].z = 0.123; }
+    for (char *q = c->name; *q; q++) *q = '#';
+    c->a = c->b = c->c = 1.0; c->volume = 1.0;
+    Crystal_Free(c);
 }
 
 /* a crystal query on a TRANSIENT object.  A pointer argument stands for what it points to: mode 0 = heap copy made by the library and released right
